@@ -207,11 +207,11 @@ func (r *Run) CaseRand(gen string, i, nBase int) *Rand {
 	return Stream(uint64(r.Seed), r.Prop, gen, strconv.Itoa(i))
 }
 
-func (r *Run) Eval()                  { atomic.AddInt64(&r.evals, 1) }
-func (r *Run) EvalN(n int)            { atomic.AddInt64(&r.evals, int64(n)) }
-func (r *Run) Inconclusive()          { atomic.AddInt64(&r.inconclusive, 1) }
-func (r *Run) Count(name string)      { r.CountN(name, 1) }
-func (r *Run) Evals() int64           { return atomic.LoadInt64(&r.evals) }
+func (r *Run) Eval()             { atomic.AddInt64(&r.evals, 1) }
+func (r *Run) EvalN(n int)       { atomic.AddInt64(&r.evals, int64(n)) }
+func (r *Run) Inconclusive()     { atomic.AddInt64(&r.inconclusive, 1) }
+func (r *Run) Count(name string) { r.CountN(name, 1) }
+func (r *Run) Evals() int64      { return atomic.LoadInt64(&r.evals) }
 func (r *Run) CountN(name string, n int64) {
 	r.mu.Lock()
 	r.counters[name] += n
